@@ -166,6 +166,30 @@ func TestCombinators(t *testing.T) {
 			return iterator.Map2(iterator.FromSeq(as), mkSrc(kind, xs), func(a, b int) int { return 10*a + b })
 		}, ref
 	})
+	scriptCheck(t, "iterator.Compose+ComposePure", in+"; Compose(_ => xs, ComposePure(f))(0) = map", true, kit.Opt{Weight: 0.5}, func(rt *rapid.T) (string, func() fp.Iterator[int], []int) {
+		xs, kind, d := srcDraw(rt, 8)
+		f := kit.IntFnGen().Draw(rt, "f")
+		return fmt.Sprintf("Compose(_=>%s, ComposePure(%v))(0)", d, f), func() fp.Iterator[int] {
+			return iterator.Compose(func(int) fp.Iterator[int] { return mkSrc(kind, xs) }, iterator.ComposePure(f.Call))(0)
+		}, refMap(xs, f.Call)
+	})
+	scriptCheck(t, "iterator.Flap2", in+"; Flap2(xs mapped to curried functions)(b)(c) = map", true, kit.Opt{Weight: 0.5}, func(rt *rapid.T) (string, func() fp.Iterator[int], []int) {
+		xs, kind, d := srcDraw(rt, 8)
+		b, c := kit.TinyInt().Draw(rt, "b"), kit.TinyInt().Draw(rt, "c")
+		return fmt.Sprintf("Flap2(%s)(%d)(%d)", d, b, c), func() fp.Iterator[int] {
+			fs := iterator.Map(mkSrc(kind, xs), func(a int) fp.Func1[int, fp.Func1[int, int]] {
+				return func(b int) fp.Func1[int, int] { return func(c int) int { return 100*a + 10*b + c } }
+			})
+			return iterator.Flap2(fs)(b)(c)
+		}, refMap(xs, func(a int) int { return 100*a + 10*b + c })
+	})
+	scriptCheck(t, "iterator.Method2", in+"; Method2(xs, f)(b, c) = map", true, kit.Opt{Weight: 0.5}, func(rt *rapid.T) (string, func() fp.Iterator[int], []int) {
+		xs, kind, d := srcDraw(rt, 8)
+		b, c := kit.TinyInt().Draw(rt, "b"), kit.TinyInt().Draw(rt, "c")
+		return fmt.Sprintf("Method2(%s)(%d,%d)", d, b, c), func() fp.Iterator[int] {
+			return iterator.Method2(mkSrc(kind, xs), func(a, b, c int) int { return 100*a + 10*b + c })(b, c)
+		}, refMap(xs, func(a int) int { return 100*a + 10*b + c })
+	})
 	scriptCheck(t, "iterator.Method1", in+"; Method1(xs, f)(b) = map", true, kit.Opt{Weight: 0.5}, func(rt *rapid.T) (string, func() fp.Iterator[int], []int) {
 		xs := genXs(1).Draw(rt, "xs") // Flap-based: argument iterator Of(b) is one-shot
 		b := kit.TinyInt().Draw(rt, "b")
